@@ -23,7 +23,7 @@ Step ==
     \/ a.n = "Load" /\ Load(a.c, a.t, a.l, a.via)
     \/ a.n = "Rotate" /\ Rotate(a.ok)
     \/ a.n = "Merge" /\ Merge(a.c, a.t)
-    \/ a.n = "Split" /\ Split({a.k[i] : i \in 1..Len(a.k)})
+    \/ a.n = "Split" /\ Split(a.k)
     \/ a.n = "Close" /\ Close(a.ok, a.via)
 Got == [post |-> Ev.post, err |-> Ev.err, res |-> Ev.res]
 \* fields the driver logged that the specification does not know (an escaped exception) can never match
